@@ -12,6 +12,12 @@ cleanup() { git -C /repo worktree remove --force "$WT" 2>/dev/null; rm -rf "$WT"
 trap cleanup EXIT
 cp -r /repo/target "$WT/target" 2>/dev/null
 mkbin() { mkdir -p "$2"; for n in redo redo-ifchange redo-ifcreate redo-always redo-stamp redo-unlocked redo-ood redo-targets redo-sources redo-log redo-whichdo; do ln -sf "$1" "$2/$n"; done; }
+# (see /verif/tools/mktemp-shim/mktemp: pins mktemp -d project directories while a stray /.redo exists at the filesystem root)
+if [ -d /.redo ]; then
+  # demos that pin their project root themselves (`mkdir .redo`) must not find one there already
+  grep -q '\.redo' "$SD/demo.sh" || { [ -x /verif/tools/mktemp-shim/mktemp ] && export PATH=/verif/tools/mktemp-shim:$PATH; }
+  mkdir -p "$WT/.redo"    # the test suite's projects live below the worktree: give them a state directory of their own
+fi
 applies=false; builds=false; tests=false; demo_mut=-1; demo_base=-1
 if git -C "$WT" apply "$SD/patch.diff" 2>/dev/null; then applies=true; fi
 if $applies && (cd "$WT" && CARGO_TARGET_DIR="$WT/target" cargo build --offline >/dev/null 2>&1); then builds=true; fi
